@@ -30,6 +30,7 @@ type Fault struct {
 	BadJSON   bool               // replace the body by something that is not JSON
 	CloseConn bool               // hijack and close the TCP connection without answering
 	Mutate    func(resp any) any // rewrite the decoded response (map or []any) before sending
+	Between   func(i int)        // called (node locked) before element i >= 1 of a batch is answered: the chain may change in the middle of one response
 	// Lag > 0: the request is answered by a replica that is Lag blocks behind
 	// (load-balanced provider): blocks above its head do not exist for it (null
 	// results, eth_getLogs answers from the blocks it has). Correct data, incomplete.
@@ -462,6 +463,9 @@ func (n *Node) Handle(body []byte) (status int, out []byte, closeConn bool) {
 		if batch {
 			arr := make([]any, len(calls))
 			for i, c := range calls {
+				if i > 0 && fault != nil && fault.Between != nil {
+					fault.Between(i)
+				}
 				arr[i] = n.one(c, sv)
 			}
 			return arr
